@@ -21,11 +21,27 @@ def load(prop):
                 out.append(m)
     return out
 
+def load_seeds(prop):
+    """kept seeded changes of the property (independent sub-agents' patches): variants of kind 'seed'"""
+    out = []
+    for d in sorted(glob.glob(os.path.join(HERE, 'seeded', 'C*'))):
+        mf = os.path.join(d, 'meta.json')
+        if not os.path.exists(mf):
+            continue
+        meta = json.load(open(mf))
+        if prop == 'all' or meta.get('property') == prop:
+            out.append(dict(property=meta['property'], name='seed:' + os.path.basename(d), rule=None, patch=os.path.join(d, 'patch.diff'), edits=[]))
+    return out
+
 def run_one(m, repo, prop_override=None):
     tmp = tempfile.mkdtemp(prefix='einomut.', dir=os.environ.get('TMPDIR', '/var/tmp'))
     try:
         dst = os.path.join(tmp, 'repo')
         subprocess.run(['rsync', '-a', '--exclude', '.git', repo.rstrip('/') + '/', dst + '/'], check=True)
+        if m.get('patch'):
+            pr = subprocess.run(['patch', '-p1', '-s', '-N', '-F', '3', '-i', m['patch']], cwd=dst, capture_output=True, text=True)
+            if pr.returncode != 0:
+                return dict(name=m['name'], outcome='skipped', detail='seed patch no longer applies: ' + (pr.stdout + pr.stderr)[-200:].replace('\n', ' '))
         for e in m['edits']:
             p = os.path.join(dst, e['file'])
             s = open(p).read()
@@ -44,7 +60,11 @@ def run_one(m, repo, prop_override=None):
             return dict(name=m['name'], outcome='invalid', detail=(pr.stderr or out)[-400:])
         rule = m.get('also', {}).get(prop, m['rule']) if isinstance(m.get('also'), dict) else m['rule']
         rules = rule if isinstance(rule, list) else [rule]
-        hit = [l for l in out.splitlines() if l.startswith('violation:') and any(('rule=' + r + ' ') in l for r in rules)]
+        if m.get('patch'):
+            # a seeded change must be reported by the property's check, whichever rule does it
+            hit = [l for l in out.splitlines() if l.startswith('violation:')]
+        else:
+            hit = [l for l in out.splitlines() if l.startswith('violation:') and any(('rule=' + r + ' ') in l for r in rules)]
         if pr.returncode == 1 and hit:
             return dict(name=m['name'], outcome='detected', detail=hit[0][:300])
         other = [l for l in out.splitlines() if l.startswith('violation:') or l.startswith('UNDECIDED')]
@@ -63,6 +83,8 @@ def main():
         elif args[i] == '--only': only = args[i+1]; i += 2
         else: i += 1
     ms = load(prop)
+    if '--no-seeds' not in args:
+        ms += load_seeds(prop)
     if only: ms = [m for m in ms if m['name'] == only]
     res = []
     with cf.ThreadPoolExecutor(max_workers=jobs) as ex:
